@@ -5,7 +5,7 @@ From Coq Require Import ZArith List Bool Reals PrimFloat.
 From FT.lib Require Import Num Arr ArrLemmas NumArr.
 From FT.gen Require Import Common Interp2d Interp3d FteikCommon Ray2d Ray3d.
 From FT.proofs Require Import NumFLaws Ray2dProofs.
-From FT.proofs Require Ray3dProofs.
+From FT.proofs Require Ray3dProofs RaySafety2d RaySafety3d.
 Import ListNotations.
 Open Scope Z_scope.
 
@@ -87,6 +87,80 @@ Theorem C15_vertices_in_hull_3d :
        forall k : Z, 0 <= k < count -> Ray3dProofs.row_in3 z x y ray k.
 Proof. exact @Ray3dProofs.ray3d_vertices_in_hull. Qed.
 
+(* exact arithmetic: the step-shortening factor of a point inside its cell box lies in [0, 1] *)
+Theorem C15_shrink_factor_range :
+  forall pcur delta lower upper : arr R,
+       Forall2 Rle (dat lower) (dat pcur) ->
+       Forall2 Rle (dat pcur) (dat upper) -> (0 <= shrink pcur delta lower upper <= 1)%R.
+Proof. exact @RaySafety2d.shrink_range. Qed.
+
+(* and is either 1 (the full step stays inside the box) or exactly the fraction that brings one coordinate onto a face of the box *)
+Theorem C15_shrink_factor_attained :
+  forall pcur delta lower upper : arr R,
+       Forall2 Rle (dat lower) (dat pcur) ->
+       Forall2 Rle (dat pcur) (dat upper) ->
+       let fac := shrink pcur delta lower upper in
+       fac = 1%R /\
+       aany (amap2 nltb (amap2 nsub pcur delta) lower) = false /\
+       aany (amap2 ngtb (amap2 nsub pcur delta) upper) = false \/
+       RaySafety2d.at_low (dat pcur) (dat delta) (dat lower) fac \/
+       RaySafety2d.at_up (dat pcur) (dat delta) (dat upper) fac.
+Proof. exact @RaySafety2d.shrink_attained. Qed.
+
+(* a factor >= 1 is 1 and the full step stays inside the box *)
+Theorem C15_shrink_full_step_inside :
+  forall pcur delta lower upper : arr R,
+       Forall2 Rle (dat lower) (dat pcur) ->
+       Forall2 Rle (dat pcur) (dat upper) ->
+       (1 <= shrink pcur delta lower upper)%R ->
+       shrink pcur delta lower upper = 1%R /\
+       (forall k : nat,
+        (k < length (dat pcur))%nat ->
+        (k < length (dat delta))%nat ->
+        (nth k (dat lower) 0 <= nth k (dat pcur) 0 - nth k (dat delta) 0 <= nth k (dat upper) 0)%R).
+Proof. exact @RaySafety2d.shrink_ge1_inside. Qed.
+
+(* a shortened step (factor < 1) ends, after both clamps, exactly on a face of the current cell *)
+Theorem C15_shortened_step_ends_on_a_face :
+  forall (z x : arr R) (nz nx : Z),
+       SafetyInterp.axisn z nz ->
+       SafetyInterp.axisn x nx ->
+       forall (p d l u : arr R) (fac : R) (p0 p1 p2 : arr R),
+       vec2 p ->
+       vec2 d ->
+       vec2 l ->
+       vec2 u ->
+       (get 0 l [0%Z] <= get 0 p [0%Z] <= get 0 u [0%Z])%R ->
+       (get 0 l [1%Z] <= get 0 p [1%Z] <= get 0 u [1%Z])%R ->
+       RaySafety2d.in_hull z nz (get 0%R l [0]) ->
+       RaySafety2d.in_hull z nz (get 0%R u [0]) ->
+       RaySafety2d.in_hull x nx (get 0%R l [1]) ->
+       RaySafety2d.in_hull x nx (get 0%R u [1]) ->
+       fac = shrink p d l u ->
+       (fac < 1)%R ->
+       p0 = amap2 nsub p (amap (fun e : R => nmul fac e) d) ->
+       p1 = set p0 [0] (pymin2 (pymax2 (get (nofZ 0) p0 [0]) (get (nofZ 0) z [0])) (get (nofZ 0) z [dim z 0 - 1])) ->
+       p2 = set p1 [1] (pymin2 (pymax2 (get (nofZ 0) p1 [1]) (get (nofZ 0) x [0])) (get (nofZ 0) x [dim x 0 - 1])) ->
+       (0 <= fac)%R /\
+       ((get 0%R p2 [0] = get 0%R l [0] \/ get 0%R p2 [0] = get 0%R u [0]) \/
+        get 0%R p2 [1] = get 0%R l [1] \/ get 0%R p2 [1] = get 0%R u [1]).
+Proof. exact @RaySafety2d.vertex_on_grid_line_2d. Qed.
+
+(* whole ray, grid magnetism included: every interior vertex of a grid-honouring 2D ray has a coordinate that is exactly an axis node *)
+Theorem C15_vertices_on_grid_lines_2d :
+  forall (z x zgrad xgrad : arr R) (nz nx : Z),
+       SafetyInterp.axisn z nz ->
+       SafetyInterp.axisn x nx ->
+       1 <= nz ->
+       1 <= nx ->
+       RaySafety2d.axis_hull z nz ->
+       RaySafety2d.axis_hull x nx ->
+       forall (fuel : nat) (zend xend zsrc xsrc stepsize : R) (max_step : Z) (ray : arr R) (count : Z),
+       1 <= max_step ->
+       u_ray2d_core_v fuel z x zgrad xgrad zend xend zsrc xsrc stepsize max_step true = Ok (ray, count) ->
+       forall k : Z, 1 <= k < count -> RaySafety2d.on_line z x nz nx ray k.
+Proof. exact @RaySafety2d.ray2d_vertices_on_grid_lines. Qed.
+
 Print Assumptions C15_terminates_2d.
 Print Assumptions C15_terminates_3d.
 Print Assumptions C15_terminates_either_mode_2d.
@@ -95,3 +169,8 @@ Print Assumptions C15_endpoints_2d.
 Print Assumptions C15_endpoints_3d.
 Print Assumptions C15_vertices_in_hull_2d.
 Print Assumptions C15_vertices_in_hull_3d.
+Print Assumptions C15_shrink_factor_range.
+Print Assumptions C15_shrink_factor_attained.
+Print Assumptions C15_shrink_full_step_inside.
+Print Assumptions C15_shortened_step_ends_on_a_face.
+Print Assumptions C15_vertices_on_grid_lines_2d.
